@@ -103,6 +103,17 @@ class DegreeOf:
         self.memo[name] = d
         return d
 
+    def return_degrees(self, name: str) -> List[Deg]:
+        """Degree of every return site of a method, separately."""
+        if name not in self.methods:
+            return []
+        self.active.append(name)
+        try:
+            rets, _ = self.run(self.methods[name])
+        finally:
+            self.active.pop()
+        return [v for _, v in rets]
+
     # -------------------------------------------------------------- forward interpretation of one function
     def run(self, fn: ast.FunctionDef, watch=()):
         """([(return node, degree)], {id(watched call): degree of its first argument at that point})"""
